@@ -469,19 +469,66 @@ def new_changelog(text, aea, strict, form="str"):
             return cl
         return Changelog(src, allow_empty_author=aea, strict=strict)
     finally:
-        if form == "file":
+        if hasattr(src, "close"):          # StringIO / BytesIO / the temporary file / a generator
             src.close()
+
+
+class capture(object):
+    """record the warnings of the PARSER only.  warnings.catch_warnings() swaps process-wide state and
+    records whatever any thread, the garbage collector or an import emits meanwhile (ResourceWarning,
+    DeprecationWarning, ...), so: only UserWarning is switched to "always" (parse_changelog uses
+    warnings.warn(message), i.e. UserWarning), ResourceWarning is ignored, nothing is ever turned into
+    an error, and `parser` keeps only the records whose category is UserWarning and whose origin is a
+    file of the repository under test.  The checks capture warnings only while no TLC job is running
+    (recording happens before the thread pool starts, replay after it was joined)."""
+
+    def __enter__(self):
+        import_repo_modules()
+        self._cm = warnings.catch_warnings(record=True)
+        self._rec = self._cm.__enter__()
+        warnings.filterwarnings("always", category=UserWarning)
+        warnings.filterwarnings("ignore", category=ResourceWarning)
+        return self
+
+    def __exit__(self, *a):
+        return self._cm.__exit__(*a)
+
+    @property
+    def parser(self):
+        import os
+        repo = os.path.realpath(os.environ.get("VERIF_REPO", "/repo")) + os.sep
+        return [x for x in self._rec if issubclass(x.category, UserWarning)
+                and os.path.realpath(x.filename or "").startswith(repo)]
+
+
+def import_repo_modules():
+    """import the modules under test OUTSIDE any capture (import-time warnings are not the parser's)"""
+    import debian.changelog         # noqa: F401
+    import debian.debian_support    # noqa: F401
+
+
+def strict_clean(text, aea, form="str"):
+    """strict parse that must neither raise nor warn -> (changelog, None) | (None, message)"""
+    with capture() as c:
+        try:
+            cl = new_changelog(text, aea, True, form)
+        except Exception as e:
+            return None, "strict parsing failed (input form %s): %s: %s" % (form, type(e).__name__, e)
+        w = c.parser
+    if w:
+        return None, "strict parsing (input form %s) emitted a warning: %s" % (form, w[0].message)
+    return cl, None
 
 
 def construct(text, aea=False, strict=False, form="str"):
     o = Out()
     o.cl, o.exc, o.msgs = None, None, []
-    with warnings.catch_warnings(record=True) as w:
-        warnings.simplefilter("always")
+    with capture() as c:
         try:
             o.cl = new_changelog(text, aea, strict, form)
         except Exception as e:          # observation
             o.exc = type(e).__name__
+        w = c.parser
     o.msgs = [str(x.message) for x in w]
     o.nwarn = len(w)
     return o
@@ -647,12 +694,9 @@ def c04_check(lines, contents, struct, alive=None, form="str", mutate=None):
     parsed again (another form) and must expose what is written.  -> None or a message"""
     from debian.debian_support import Version
     text = join(lines)
-    try:
-        with warnings.catch_warnings():
-            warnings.simplefilter("error")
-            cl = new_changelog(text, False, True, form)
-    except Exception as e:
-        return "strict parsing failed (input form %s): %s: %s" % (form, type(e).__name__, e)
+    cl, msg = strict_clean(text, False, form)
+    if msg:
+        return msg
     s, err = fmt(cl)
     if s != text:
         if s is None:
@@ -974,12 +1018,9 @@ def run_hist(rec, c04=True):
     from debian.changelog import Changelog
     tail = rec.get("tail") or []
     text = join(rec["lines"] + tail)
-    try:
-        with warnings.catch_warnings():
-            warnings.simplefilter("error")
-            cl = new_changelog(text, rec["aea"], True, rec.get("form", "str"))
-    except Exception as e:
-        return "strict parsing failed: %s: %s" % (type(e).__name__, e)
+    cl, msg = strict_clean(text, rec["aea"], rec.get("form", "str"))
+    if msg:
+        return msg
     last = None
     for k, (op, arg, how) in enumerate(zip(rec["ops"], rec["args"], rec["hows"])):
         err, t = apply_hist(cl, op, arg, how)
@@ -1006,12 +1047,9 @@ def run_hist(rec, c04=True):
         if msg:
             return msg
         if c04:
-            try:
-                with warnings.catch_warnings():
-                    warnings.simplefilter("error")
-                    ref = Changelog(last, strict=True)
-            except Exception as e:
-                return "strict parsing of the formatted text failed: %s: %s" % (type(e).__name__, e)
+            ref, msg = strict_clean(last, False)
+            if msg:
+                return "the formatted text: " + msg
             if fields_of(ref) != fields_of(cl):
                 return "the blocks of the edited changelog and of a fresh parse of its text expose different data"
     if c04 and rec.get("doc"):
